@@ -636,8 +636,14 @@ class EligibilityMonitor(Monitor):
         if view and view['statecode'] in RUN_CODES:
             self.violate('C04/already-running', f'start request {where}: the requester already sees it '
                          f"{view['statename']} on {view['identifiers']}", case=run.describe())
-        if any(r['namespec'] == namespec for r in tr.outstanding(inst.nick, inst.inc)):
-            self.violate('C04/already-requested', f'start request {where}: the same requester has an unfinished '
+        mine = [r for r in tr.outstanding(inst.nick, inst.inc) if r['namespec'] == namespec]
+        if mine:
+            mech = ''
+            if any(tr.judged_on_older_event(r, (0, 10, 20, 30, 40, 100, 200, 1000)) for r in mine):
+                # the requester has judged its previous request (completed, then failed) on events of an earlier cycle
+                # of that process, received in a burst before that request was even delivered
+                mech = ':own-request-judged-on-an-event-older-than-its-delivery'
+            self.violate('C04/already-requested' + mech, f'start request {where}: the same requester has an unfinished '
                          f'start request for it', case=run.describe())
 
     def on_forced(self, inst, rec):
